@@ -169,7 +169,7 @@ func gen(t *rapid.T) (Case, string) {
 		return Case{Link: str, Why: "arbitrary string: totality only"}, "soup"
 	}
 	scheme := rapid.SampledFrom([]string{"", "", "http://", "https://", "HTTPS://", "Http://", "tg://", "ftp://", "//", "ws://", "mailto:", "http:", "https:", "HTTPS:", "http:/", "https:///"}).Draw(t, "scheme")
-	hostKind := rapid.SampledFrom([]string{"reserved", "reserved", "reserved", "lookalike", "upper", "empty"}).Draw(t, "hostkind")
+	hostKind := rapid.SampledFrom([]string{"reserved", "reserved", "reserved", "lookalike", "upper", "empty", "bracketed"}).Draw(t, "hostkind")
 	var host string
 	switch hostKind {
 	case "reserved":
@@ -178,6 +178,10 @@ func gen(t *rapid.T) (Case, string) {
 		host = rapid.SampledFrom(lookalikes).Draw(t, "host")
 	case "upper":
 		host = strings.ToUpper(rapid.SampledFrom(reserved).Draw(t, "host"))
+	case "bracketed":
+		// the syntax of an IPv6 literal around a name: Go's parser accepts it and strips the brackets (no browser follows
+		// such a link); a link or an error, either way
+		host = "[" + rapid.SampledFrom(append(append([]string{}, reserved...), "evil.com", "::1", "")).Draw(t, "host") + "]"
 	}
 	port := rapid.SampledFrom([]string{"", "", ":443", ":80", ":8443"}).Draw(t, "port")
 	pathKind := rapid.SampledFrom([]string{"user", "user", "join", "join", "bare", "slash", "two", "three", "emptyjoin", "trailing", "doubleslash", "escaped"}).Draw(t, "pathkind")
@@ -224,7 +228,7 @@ func gen(t *rapid.T) (Case, string) {
 		}
 	case scheme == "//" || (strings.HasSuffix(scheme, ":") && scheme != "mailto:") || scheme == "http:/" || scheme == "https:///":
 		// protocol-relative, or http(s) without the authority slashes: a link or an error, either way
-	case hostKind == "upper" || pathKind == "escaped" || pathKind == "doubleslash":
+	case hostKind == "upper" || hostKind == "bracketed" || pathKind == "escaped" || pathKind == "doubleslash":
 		// accepted either way (no assertion beyond totality)
 	case !schemeOK:
 		// scheme-less with a port: Go parses "t.me:443/x" as scheme "t.me" - accepted either way
